@@ -12,7 +12,7 @@ LEVEL_TEXT = ("Lean 4 theorems about a hand-written model of the scan-line gener
               "least half the two lengths apart by every placement satisfying the generated constraints); "
               "geny_no_overlap / genx_no_overlap (after moving the centres to any such placement no two bordered "
               "rectangles overlap with positive area); pointer_bookkeeping_exact (the pointer bookkeeping equals "
-              "recomputing scan-line neighbours); separation_no_overlap; moveCentre_keeps_size. The model is tied to "
+              "recomputing scan-line neighbours); removeoverlaps_y_last_no_overlap / removeoverlaps_x_last_no_overlap (the last pass of removeoverlaps, run with the EXTRA_GAP border, leaves no overlap once the borders are restored, given a solver output that satisfies the constraints); valid_order_exists (the hypothesis on the event order is satisfiable for every input); separation_no_overlap; moveCentre_keeps_size. The model is tied to "
               "the C++ by exact comparison of the generated constraint multisets (left id, right id, gap) on "
               "tie-free inputs. Every output of the real code (constraints on tie inputs, rectangles after "
               "removeoverlaps) is judged by Lean checkers with proved soundness: noOverlap_sound_complete, "
